@@ -589,6 +589,16 @@ func (fr *Frame) enterLoop(li *loopInfo, cur *State) *State {
 	if li.idxCell != nil {
 		if v, ok := h.cells[li.idxCell]; ok {
 			vc.assume(h.pc, fmt.Sprintf("(>= %s (- 1))", v.t))
+			// structural auto-invariant of range loops: the index stays below the length evaluated before the loop
+			if iff, ok := li.header.Instrs[len(li.header.Instrs)-1].(*ssa.If); ok {
+				if cmp, ok := iff.Cond.(*ssa.BinOp); ok && cmp.Op == token.LSS {
+					if lv, ok := fr.env[cmp.Y]; ok && lv.t != "" {
+						vc.assume(h.pc, fmt.Sprintf("(< %s %s)", v.t, lv.t))
+					} else if c, ok := cmp.Y.(*ssa.Const); ok {
+						vc.assume(h.pc, fmt.Sprintf("(< %s %d)", v.t, c.Int64()))
+					}
+				}
+			}
 		}
 	}
 	if hasMod {
